@@ -314,8 +314,7 @@ func libraryAgainstTextbook() []*progCase {
 		gc(":-", gc("mem", gv(0), gc(".", gv(-1), gv(1))), gc("mem", gv(0), gv(1))),
 		gc("sel", gv(0), gc(".", gv(0), gv(1)), gv(1)),
 		gc(":-", gc("sel", gv(0), gc(".", gv(1), gv(2)), gc(".", gv(1), gv(3))), gc("sel", gv(0), gv(2), gv(3))),
-		gc("app", ga("[]"), gv(0), gv(0)),
-		gc(":-", gc("app", gc(".", gv(0), gv(1)), gv(2), gc(".", gv(0), gv(3))), gc("app", gv(1), gv(2), gv(3))),
+		// app/3 is part of the library every generated program is loaded with
 	}
 	a, b, c := ga("a"), ga("b"), ga("c")
 	x, y, z, t := gv(0), gv(1), gv(2), gv(3)
